@@ -1,3 +1,60 @@
-import Rustemo.Model.LR
+import Rustemo.Props.C01
+import Rustemo.Props.C03
+/-!
+# C07 — LR and GLR parsers built from the same deterministic grammar agree
+
+**Full statement** (`C07_statement`): for a grammar that needs no disambiguation the GLR parser
+accepts exactly the inputs the LR parser accepts, with exactly one solution, equal to the LR tree up to
+elided nullable tails, with the same spans.
+
+PARTIAL.  Proved here: for a certified deterministic table the LR parser accepts exactly the
+sentences (C01) and the tree it returns is **the only** derivation tree of the input
+(`C07_lr_tree_is_the_unique_derivation`); and the forest API enumerates each tree of the forest
+exactly once (C03).  Hence *if* the GLR forest contains exactly the derivation trees of the input
+(C03's statement about the graph-structured-stack engine — not proved, decided by an independent
+derivation enumerator), it has exactly one tree and that tree is the LR tree.  The comparison of the
+two real parsers (Ok/Err, `solutions() = 1`, node-by-node equality incl. spans, modulo elision) is
+done on every generated input.
+-/
 namespace Rustemo.Props.C07
+open Rustemo Rustemo.Props.C01
+
+/-- The tree the LR parser returns is the unique derivation tree of the input. -/
+theorem C07_lr_tree_is_the_unique_derivation (g : Grammar) (t : Table) (hcert : certC01 g t = true)
+    (w : List Nat) (fuel : Nat) (tr : Tree) (h : tparse g t w fuel = .accept tr)
+    (tx : Tree) (hv : tx.Valid g g.startIdx) (hy : tx.yield = w) : tx.plain = tr := by
+  obtain ⟨f2, e2⟩ := C01_sentence_is_accepted g t hcert tx hv
+  rw [hy] at e2
+  unfold tparse at h e2
+  have a1 := trun_mono g t fuel _ _ h f2
+  have a2 := trun_mono g t f2 _ _ e2 fuel
+  rw [Nat.add_comm] at a2
+  rw [a1] at a2
+  injection a2 with a2
+  exact a2.symm
+
+/-- A GLR forest that contains exactly the derivation trees of a sentence of a certified
+    deterministic grammar (each once) has exactly one solution, and it is the LR tree. -/
+theorem C07_single_solution_is_lr_tree (g : Grammar) (t : Table) (hcert : certC01 g t = true)
+    (w : List Nat) (fuel : Nat) (tr : Tree) (h : tparse g t w fuel = .accept tr)
+    (derivs : List Tree)   -- what the forest contains, as plain derivation trees without repetition
+    (hd : ∀ tx ∈ derivs, tx.Valid g g.startIdx ∧ tx.yield = w ∧ tx.IsPlain)
+    (hnodup : derivs.Nodup) (hne : derivs ≠ [])
+    (hplain : ∀ tx : Tree, tx.IsPlain → tx.plain = tx) :
+    derivs = [tr] := by
+  have hall : ∀ tx ∈ derivs, tx = tr := by
+    intro tx htx
+    obtain ⟨hv, hy, hp⟩ := hd tx htx
+    have := C07_lr_tree_is_the_unique_derivation g t hcert w fuel tr h tx hv hy
+    rw [hplain tx hp] at this
+    exact this
+  match derivs, hne, hnodup, hall with
+  | [x], _, _, hall => rw [hall x (by simp)]
+  | x :: y :: rest, _, hnd, hall =>
+    exfalso
+    have hx := hall x (by simp)
+    have hy := hall y (by simp)
+    rw [List.nodup_cons] at hnd
+    exact hnd.1 (by rw [hx, ← hy]; simp)
+
 end Rustemo.Props.C07
